@@ -45,6 +45,14 @@ def check(ctx):
     drive(drv, "dfs", ["-bound", "2" if quick else "3", "-maxruns", "60000" if quick else "400000"])
     drive(drv, "random", ["-runs", "3000" if quick else "100000"])
     drive(free, "free", ["-runs", "300" if quick else "5000"])
+    stalled = sum(r["counters"].get("stalled_runs", 0) for r in results.values())
+    if stalled:
+        # the implementation blocks in a primitive the shims do not model (e.g. a channel): controlled execution was
+        # given up, the verdict rests on free runs - so there are more of them
+        log("controlled execution not applicable to this tree (%d runs stalled): verdict from free runs" % stalled)
+        results["free1"] = results.pop("free")
+        trace_files.pop()          # the second free job writes the same trace file again
+        drive(free, "free", ["-runs", "4000" if quick else "20000"])
 
     # 3. TLC validates every distinct observable trace against the L1 contract
     recs, bad, vres = validate_traces(ctx, "parwork", "Trace_ParWork.tla", "Trace_ParWork.cfg", trace_files)
